@@ -7,6 +7,11 @@ import molgen
 SALTS = ['CCO.O', '[Na+].[Cl-]', 'CC(=O)[O-].[Na+]', 'C[N+](C)(C)C.[Br-]', 'CC(C)=O.O.O', 'OC(=O)CC(O)(CC(O)=O)C(O)=O.[K+]', 'c1ccccc1O.[Li+]', 'CCN.Cl', 'O.O.CC(N)C(=O)O']
 
 
+def heavy_degree(a):
+    """Number of heavy-atom neighbours: an 'unbonded heavy atom' (counter-ion, water) has none, with explicit or implicit hydrogens."""
+    return sum(1 for n in a.GetNeighbors() if n.GetAtomicNum() > 1)
+
+
 def displaced(m, cid, rng, which):
     """Copy of m with the atoms selected by `which(atom)` moved randomly (up to 3 A)."""
     from rdkit import Chem
@@ -25,7 +30,8 @@ def displaced(m, cid, rng, which):
 def without_floating(m):
     from rdkit import Chem
     rw = Chem.RWMol(m)
-    dead = [a.GetIdx() for a in rw.GetAtoms() if a.GetAtomicNum() > 1 and a.GetDegree() == 0]
+    dead = [a.GetIdx() for a in rw.GetAtoms() if a.GetAtomicNum() > 1 and heavy_degree(a) == 0]
+    dead += [h.GetIdx() for i in list(dead) for h in rw.GetAtomWithIdx(i).GetNeighbors()]      # their hydrogens go with them
     # hydrogens attached to nothing else are not heavy; explicit H on floating atoms (water) have degree >= 1 neighbours: remove with their heavy atom
     for i in sorted(dead, reverse=True):
         rw.RemoveAtom(i)
@@ -52,30 +58,41 @@ def run(ctx):
             pool.append((smi, m, rng.randrange(m.GetNumConformers())))
     cases = m1lib.gen_cases(ctx, ctx.n(45, 700), pool=pool)
     found |= m1lib.run_cases(ctx, cases, 'C18 model/implementation tie (explicit H, floating atoms)') > 0
+    # lattice molecules: many heavy-atom distances equal a shell radius exactly
+    lat = [molgen.lattice_molecule(rng) for _ in range(ctx.n(80, 600))]
+    search_pool = [(smi, m, cid, None) for (smi, m, cid) in pool[:ctx.n(40, 500)]] + [(n, m, c, mult) for (n, m, c, mult) in lat]
+    ctx.coverage['input_distribution']['lattice_molecules_with_exact_ties'] = len(lat)
     # search on the implementation
     stats = {'h_displacements': 0, 'floating_displacements': 0, 'deletions': 0, 'included_contributes': 0}
-    for (smi, m, cid) in pool[:ctx.n(40, 500)]:
+    for (smi, m, cid, lat_mult) in search_pool:
         o = molgen.rand_opts(rng)
+        if lat_mult is not None:
+            o = dict(o, mult=lat_mult, level=rng.choice([2, 3, 4]), incl=True)
         heavy = [a for a in m.GetAtoms() if a.GetAtomicNum() > 1]
-        bonded = [a for a in heavy if a.GetDegree() > 0]
-        floating = [a for a in heavy if a.GetDegree() == 0]
-        try:
-            f0, obs0, k0 = molfacts.impl_run(m, cid, o)
-        except Exception:
+        bonded = [a for a in heavy if heavy_degree(a) > 0]
+        floating = [a for a in heavy if heavy_degree(a) == 0]
+        r0 = m1lib.base_run(ctx, smi, m, cid, o)
+        if r0 is None:
             continue
+        f0, obs0, k0 = r0
         base = (k0, m1lib.all_level_ids(f0))
         # hydrogens never matter
-        m2, nmoved = displaced(m, cid, rng, lambda a: a.GetAtomicNum() == 1)
-        if nmoved:
+        for rep in range(8 if lat_mult is not None else 1):      # exact-tie molecules: several displacements each (cheap)
+            m2, nmoved = displaced(m, cid, rng, lambda a: a.GetAtomicNum() == 1)
+            if not nmoved:
+                break
             f1, _, k1 = molfacts.impl_run(m2, cid, o)
             stats['h_displacements'] += 1
-            ctx.count(('H', smi, cid, str(o)), k0 >= 1)
+            ctx.count(('H', smi, cid, str(o), rep), k0 >= 1)
             if (k1, m1lib.all_level_ids(f1)) != base:
                 found = True
-                ctx.fail('moving hydrogen atoms changed the fingerprint', {'smiles': smi, 'conf': cid, 'opts': m1lib.opts_json(o)}, finding_key='C18:hydrogen')
+                from rdkit import Chem
+                ctx.fail('moving hydrogen atoms changed the fingerprint', {'smiles': smi, 'conf': cid, 'opts': m1lib.opts_json(o),
+                         'molblock_before': Chem.MolToMolBlock(m, confId=cid), 'molblock_after': Chem.MolToMolBlock(m2, confId=cid)}, finding_key='C18:hydrogen')
+                break
         if floating and bonded and len(heavy) > 1:
             if o['exfloat']:
-                m3, _ = displaced(m, cid, rng, lambda a: a.GetAtomicNum() > 1 and a.GetDegree() == 0)
+                m3, _ = displaced(m, cid, rng, lambda a: a.GetAtomicNum() > 1 and heavy_degree(a) == 0)
                 f2, _, k2 = molfacts.impl_run(m3, cid, o)
                 stats['floating_displacements'] += 1
                 ctx.count(('float-move', smi, cid, str(o)), k0 >= 1)
